@@ -1,7 +1,8 @@
 /-
 Models of the contextual lookup subtables (/repo/opentype/gtab/nested.go, as repaired for C08: the
-encoders of SeqContext1, SeqContext3, ChainedSeqContext1 and ChainedSeqContext3 refuse offsets above
-0xFFFF with a panic, as those of SeqContext2 and ChainedSeqContext2 already did):
+encoders of SeqContext1, SeqContext3, ChainedSeqContext1 (rule-set offsets and, second repair, rule
+offsets inside a set) and ChainedSeqContext3 refuse offsets above 0xFFFF with a panic, as those of
+SeqContext2 and ChainedSeqContext2 already did):
 sequence context formats 1–3 (GSUB type 5 / GPOS type 7) and chained sequence context formats 1–3
 (GSUB type 6 / GPOS type 8).  A nil rule set is `none` (written as offset 0).  Core-only.
 -/
@@ -78,8 +79,12 @@ def allSets (rwords : Rule → List Nat) (rlen : Rule → Nat) (check : Bool) :
       | o => o
     | o => o
 
-def setsLen (rlen : Rule → Nat) (sets : List (Option (List Rule))) : Nat :=
-  (sets.map fun s => match s with | some r => setLen rlen r | none => 0).sum
+def optSetLen (rlen : Rule → Nat) (s : Option (List Rule)) : Nat :=
+  match s with
+  | some r => setLen rlen r
+  | none => 0
+
+def setsLen (rlen : Rule → Nat) (sets : List (Option (List Rule))) : Nat := (sets.map (optSetLen rlen)).sum
 
 /-- a class definition table as an encoder sees it -/
 structure ClassPart where
@@ -146,10 +151,12 @@ def covsBytes : List (List Nat) → Outcome Bytes
       | o => o
     | o => o
 
-def covsLen (cs : List (List Nat)) : Outcome Nat :=
-  cs.foldl (fun acc c => match acc, Cov.encodeLen c with
-    | .ok a, .ok n => .ok (a + n)
-    | _, _ => .panic "invalid coverage table") (.ok 0)
+def covsLenStep (acc : Outcome Nat) (c : List Nat) : Outcome Nat :=
+  match acc, Cov.encodeLen c with
+  | .ok a, .ok n => .ok (a + n)
+  | _, _ => .panic "invalid coverage table"
+
+def covsLen (cs : List (List Nat)) : Outcome Nat := cs.foldl covsLenStep (.ok 0)
 
 def encodeLen3 (covs : List (List Nat)) (actions : List Action) : Outcome Nat :=
   match covsLen covs with
@@ -176,7 +183,7 @@ def encodeC1 (rev : List Nat) (sets : List (Option (List Rule))) : Outcome Bytes
   | .ok n =>
     match setOffsets cruleLen true sets (6 + 2 * sets.length + n) with
     | .ok (offs, _) =>
-      match allSets cruleWords cruleLen false sets, Cov.encode rev with
+      match allSets cruleWords cruleLen true sets, Cov.encode rev with
       | .ok w, .ok c =>
         .ok (wordsToBytes ([1, w16 (6 + 2 * sets.length), w16 sets.length] ++ offs) ++ c ++ wordsToBytes w)
       | _, _ => .panic "panic"
@@ -277,7 +284,7 @@ def readCRule (b : Bytes) (off : Nat) : Outcome Rule :=
   | .ok (back, r1) =>
     match r1 with
     | ic :: r2 =>
-      match takeN r2 ((ic + 65535) % 65536) with
+      match takeN r2 (if ic == 0 then 65535 else ic - 1) with
       | .ok (input, r3) =>
         match counted r3 with
         | .ok (look, r4) =>
